@@ -127,6 +127,19 @@ Theorem C09_routing_key_v4 : forall cc cols pkey ks0 tpk vals,
 Proof. exact routing_key_v4_lemma. Qed.
 Print Assumptions C09_routing_key_v4.
 
+(* One *Query used several times (GetRoutingKey, token-aware Pick, Bind of new values, RoutingKey, Release and
+   reuse, in any order and number): the key returned right after Bind(values) is the key of THOSE values (or the
+   explicit key still set on the handle) whatever was asked or bound before, and earlier GetRoutingKey / Pick calls
+   leave no trace in the handle. *)
+Theorem C09_routing_key_uses_current_binding : forall cc cols pkey ks0 tpk st ops per n,
+  let st' := fold_left q_step ops st in
+  q_run cc cols pkey ks0 tpk st (ops ++ [QBind per n; QGet])
+  = q_run cc cols pkey ks0 tpk st ops
+    ++ [get_routing_key (q_explicit st') (q_has_binding st' && (n =? 0)) cc cols pkey ks0 tpk per n]
+  /\ st' = fold_left q_step (filter (fun op => negb (is_read op)) ops) st.
+Proof. intros. split; [apply q_get_after_bind|apply q_state_ignores_reads]. Qed.
+Print Assumptions C09_routing_key_uses_current_binding.
+
 (* ---- non-vacuity: the hypotheses are satisfiable by concrete, non-trivial values ------------------- *)
 (* the key whose h1 is Long.MIN_VALUE (the witness of the fixed finding) is inside the theorem now *)
 Example C09_min_value_key_normalised :
